@@ -59,7 +59,9 @@ type SP struct{ ID, MBeh int }
 // NoIface lacks all the interfaces.
 type NoIface struct{ ID, MBeh int }
 
-func c20Data(id, mbeh, ubeh int) string { return fmt.Sprintf("%d:%d:%d", ubeh, id, mbeh) }
+// the scripted data is valid JSON (an array of three numbers), so that a helper which
+// normalises JSON before comparing is also exercised
+func c20Data(id, mbeh, ubeh int) string { return fmt.Sprintf("[%d,%d,%d]", ubeh, id, mbeh) }
 func c20ErrText(id int) string         { return fmt.Sprintf("boom %d", id) }
 
 // marshal behaviours: 0 right data; 1 error; 2 error together with data; 3 panic.
@@ -80,7 +82,8 @@ func c20Marshal(id, mbeh int) ([]byte, error) {
 // different value; 2 error only; 3 error and a value; 4 panic.
 func c20Unmarshal(data []byte) (id, mbeh int, set bool, err error) {
 	s := strings.TrimSuffix(string(data), "#other")
-	parts := strings.Split(s, ":")
+	s = strings.NewReplacer(" ", "", "\n", "", "[", "", "]", "").Replace(s)
+	parts := strings.Split(s, ",")
 	if len(parts) != 3 {
 		return 0, 0, false, fmt.Errorf("unparsable scripted data %q", data)
 	}
@@ -133,6 +136,57 @@ func (s *SP) unmarshal(data []byte) error {
 func (s *SP) UnmarshalText(data []byte) error   { return s.unmarshal(data) }
 func (s *SP) UnmarshalBinary(data []byte) error { return s.unmarshal(data) }
 func (s *SP) UnmarshalJSON(data []byte) error   { return s.unmarshal(data) }
+
+// TextOnly implements only the text interfaces, JSONOnly only the JSON ones, and Mixed has
+// its text methods on the value receiver and its JSON/binary unmarshalers on the pointer receiver.
+type TextOnly struct{ ID, MBeh int }
+
+func (s TextOnly) MarshalText() ([]byte, error) { return c20Marshal(s.ID, s.MBeh) }
+func (s *TextOnly) UnmarshalText(data []byte) error {
+	id, mb, set, err := c20Unmarshal(data)
+	if set {
+		s.ID, s.MBeh = id, mb
+	}
+	return err
+}
+
+type JSONOnly struct{ ID, MBeh int }
+
+func (s JSONOnly) MarshalJSON() ([]byte, error) { return c20Marshal(s.ID, s.MBeh) }
+func (s *JSONOnly) UnmarshalJSON(data []byte) error {
+	id, mb, set, err := c20Unmarshal(data)
+	if set {
+		s.ID, s.MBeh = id, mb
+	}
+	return err
+}
+
+type BinaryOnly struct{ ID, MBeh int }
+
+func (s *BinaryOnly) MarshalBinary() ([]byte, error) { return c20Marshal(s.ID, s.MBeh) }
+func (s *BinaryOnly) UnmarshalBinary(data []byte) error {
+	id, mb, set, err := c20Unmarshal(data)
+	if set {
+		s.ID, s.MBeh = id, mb
+	}
+	return err
+}
+
+// c20Implements: does scripted type typ implement the interface helper h needs?
+// types: 0 SV, 1 *SP, 2 NoIface, 3 TextOnly, 4 JSONOnly, 5 *BinaryOnly
+func c20Implements(typ, helper int) bool {
+	switch typ {
+	case 0, 1:
+		return true
+	case 3:
+		return helper/2 == 0
+	case 4:
+		return helper/2 == 2
+	case 5:
+		return helper/2 == 1
+	}
+	return false
+}
 
 // ---- case specification (serialisable, so a failing list can be replayed)
 
@@ -195,6 +249,9 @@ func c20ExpectedData(s c20Spec) string {
 	// the marshaler always writes unmarshal-behaviour 0 into its output; a case that is used in both
 	// directions and wants another unmarshal behaviour therefore cannot also expect the right data
 	if !s.DataRight {
+		if s.ID%2 == 0 { // differs only in insignificant JSON whitespace
+			return strings.ReplaceAll(d, ",", ", ") + "\n"
+		}
 		d += "#other"
 	}
 	return d
@@ -394,12 +451,33 @@ func c20RunList(w *rt.W, helper, typ int, withHelper bool, specs []c20Spec) c20L
 				}
 				return &SP{ID: c20ExpID(s), MBeh: s.MBeh}
 			}, func() *SP { return &SP{} })
+		case 3:
+			c20Invoke(t, helper, withHelper, specs, func(s c20Spec) TextOnly {
+				if marshalDir || s.Constraint == 1 {
+					return TextOnly{ID: s.ID, MBeh: s.MBeh}
+				}
+				return TextOnly{ID: c20ExpID(s), MBeh: s.MBeh}
+			}, func() TextOnly { return TextOnly{} })
+		case 4:
+			c20Invoke(t, helper, withHelper, specs, func(s c20Spec) JSONOnly {
+				if marshalDir || s.Constraint == 1 {
+					return JSONOnly{ID: s.ID, MBeh: s.MBeh}
+				}
+				return JSONOnly{ID: c20ExpID(s), MBeh: s.MBeh}
+			}, func() JSONOnly { return JSONOnly{} })
+		case 5:
+			c20Invoke(t, helper, withHelper, specs, func(s c20Spec) *BinaryOnly {
+				if marshalDir || s.Constraint == 1 {
+					return &BinaryOnly{ID: s.ID, MBeh: s.MBeh}
+				}
+				return &BinaryOnly{ID: c20ExpID(s), MBeh: s.MBeh}
+			}, func() *BinaryOnly { return &BinaryOnly{} })
 		default:
 			c20Invoke(t, helper, withHelper, specs, func(s c20Spec) NoIface { return NoIface{ID: s.ID, MBeh: s.MBeh} }, func() NoIface { return NoIface{} })
 		}
 	})
 	w.Eval(1)
-	j := c20JudgeList(specs, marshalDir, typ == 2)
+	j := c20JudgeList(specs, marshalDir, !c20Implements(typ, helper))
 	reported := t.errorf > 0 || t.failNow > 0
 	args := func() map[string]any {
 		b, _ := json.Marshal(specs)
@@ -520,7 +598,7 @@ func runC20(c *rt.Ctx) {
 			for k := range specs {
 				specs[k] = c20GenSpec(r, 1+r.Intn(900))
 			}
-			typ := []int{0, 0, 0, 1, 1, 2}[r.Intn(6)]
+			typ := []int{0, 0, 0, 1, 1, 2, 3, 4, 5}[r.Intn(9)]
 			if typ != 1 {
 				for k := range specs {
 					specs[k].NilValue = false
